@@ -43,6 +43,7 @@ type modState struct {
 	list []NamedModule
 	idx  int
 	init bool
+	slot []byte // persisting state machine: the serialised state of the current module
 }
 
 // NamedModule is an owner service info module with its name.
@@ -682,4 +683,84 @@ func (m *msm) CleanupModules(ctx context.Context) {
 	if ss, _, err := m.state(ctx); err == nil {
 		ss.mods = nil
 	}
+}
+
+// ---- persisting module state machine ----
+
+// Rehydratable is an owner module whose whole state can be taken out and put back: the persisting state machine keeps
+// no module object between two messages.
+type Rehydratable interface {
+	serviceinfo.OwnerModule
+	Snapshot() []byte
+	Restore([]byte)
+}
+
+// PersistingModules returns a state machine of the kind the ModulePersister documentation calls option 3: nothing but
+// (index of the current module, its serialised state) survives a message; Module() builds a FRESH module object from
+// the OwnerModules factory and restores the stored state into it; PersistModule stores the state of the module it is
+// given into the single slot; NextModule moves on and empties the slot.
+func (s *MemStore) PersistingModules() serviceinfo.ModuleStateMachine { return &pmsm{msm{s}} }
+
+type pmsm struct{ msm }
+
+func (m *pmsm) Module(ctx context.Context) (string, serviceinfo.OwnerModule, error) {
+	name, _, err := m.msm.Module(ctx)
+	if err != nil {
+		return "", nil, err
+	}
+	m.s.mu.Lock()
+	ss, _, _ := m.state(ctx)
+	idx, slot := ss.mods.idx, ss.mods.slot
+	m.s.mu.Unlock()
+	guid, err := m.s.GUID(ctx)
+	if err != nil {
+		return "", nil, err
+	}
+	devmod, supported, _, err := m.s.Devmod(ctx)
+	if err != nil {
+		return "", nil, err
+	}
+	// a fresh object for the current module
+	for _, nm := range m.s.OwnerModules(ctx, guid, devmod, supported) {
+		if nm.Name == name {
+			_ = idx
+			if rh, ok := nm.Mod.(Rehydratable); ok {
+				if slot != nil {
+					rh.Restore(slot)
+				}
+				return name, rh, nil
+			}
+			return "", nil, fmt.Errorf("module %q cannot be rehydrated", name)
+		}
+	}
+	return "", nil, fmt.Errorf("module %q not produced by the factory", name)
+}
+
+func (m *pmsm) NextModule(ctx context.Context) (bool, error) {
+	ok, err := m.msm.NextModule(ctx)
+	m.s.mu.Lock()
+	if ss, _, e := m.state(ctx); e == nil && ss.mods != nil {
+		ss.mods.slot = nil
+	}
+	m.s.mu.Unlock()
+	return ok, err
+}
+
+// PersistModule implements serviceinfo.ModulePersister.
+func (m *pmsm) PersistModule(ctx context.Context, name string, module serviceinfo.OwnerModule) error {
+	rh, ok := module.(Rehydratable)
+	if !ok {
+		return nil // devmod and other modules the machine does not own
+	}
+	m.s.mu.Lock()
+	defer m.s.mu.Unlock()
+	ss, _, err := m.state(ctx)
+	if err != nil {
+		return err
+	}
+	if ss.mods == nil {
+		return nil
+	}
+	ss.mods.slot = rh.Snapshot()
+	return nil
 }
